@@ -316,6 +316,21 @@ where
                     active.remove(*i);
                 }
 
+                #[cfg(feature = "verif-hooks")]
+                crate::verif_hooks::push(|| {
+                    format!(
+                        "reporter total={} mr={:?} active={:?} next={} fin={}",
+                        total,
+                        most_recent
+                            .iter()
+                            .map(|s: &Option<ChainStats>| s.as_ref().map(|x| x.n))
+                            .collect::<Vec<_>>(),
+                        active.iter().map(|a| a.0).collect::<Vec<_>>(),
+                        next_active,
+                        n_finished
+                    )
+                });
+
                 if n_finished >= most_recent.len() {
                     break;
                 }
